@@ -443,3 +443,74 @@ Lemma altered_same_data :
 Proof.
   eexists. split; [vm_compute; reflexivity|]. split; [discriminate|]. split; vm_compute; reflexivity.
 Qed.
+
+(* ------------------------------------------------------------------ the encoder's trailer *)
+
+Lemma encode_buf_hash chunk h out h1 :
+  chunk <> [] -> encode_buf chunk h = Some (out, h1) -> h1 = mir_hash_strict chunk h.
+Proof.
+  intros Hne E. rewrite (encode_buf_nonempty _ _ Hne) in E.
+  destruct (enc_loop _ _ _ _ _ _) as [[st acc]|]; [|discriminate]. congruence.
+Qed.
+
+Lemma enc_chunks_chain : forall fuel data h body h',
+  enc_chunks fuel data h = Some (body, h') -> chain data h h'.
+Proof.
+  induction fuel as [|fuel IH]; intros data h body h' E.
+  - destruct data; [|discriminate]. rewrite enc_chunks_nil in E. inversion E; subst. constructor.
+  - destruct data as [|x d].
+    { rewrite enc_chunks_nil in E. inversion E; subst. constructor. }
+    rewrite enc_chunks_cons in E.
+    assert (CL : forall c h0, c <> [] -> (length c < buf_fuel)%nat -> chain c h0 (mir_hash_strict c h0))
+      by (intros; apply chain_last; assumption).
+    assert (CF : forall c rest h0 h1, length c = buf_fuel -> chain rest (mir_hash_strict c h0) h1 ->
+                                      chain (c ++ rest) h0 h1)
+      by (intros; apply chain_full; assumption).
+    pose proof buf_fuel_N as HBF.
+    remember buf_fuel as bf eqn:Hbf. clear Hbf.
+    set (data := x :: d) in *.
+    destruct (encode_buf (firstn bf data) h) as [[out h1]|] eqn:EB; [|discriminate].
+    destruct (enc_chunks fuel (skipn bf data) h1) as [[outs h2]|] eqn:EC; [|discriminate].
+    assert (E2 : h2 = h') by congruence. subst h2. clear E.
+    assert (Hlen : length (firstn bf data) = Nat.min bf (length data)) by apply firstn_length.
+    assert (Hpos : (0 < length (firstn bf data))%nat).
+    { rewrite Hlen. unfold data. cbn [length]. unfold BUF_LEN in HBF. lia. }
+    assert (Hne : firstn bf data <> []).
+    { intro C. rewrite C in Hpos. cbn [length] in Hpos. lia. }
+    apply encode_buf_hash in EB; [|exact Hne]. subst h1.
+    destruct (Nat.lt_ge_cases (length data) bf) as [Hlt|Hge].
+    + rewrite (skipn_all2 data) in EC by lia. rewrite enc_chunks_nil in EC.
+      rewrite (firstn_all2 data) in * by lia.
+      assert (E3 : h' = mir_hash_strict data h) by congruence. subst h'.
+      apply CL; [exact Hne | exact Hlt].
+    + rewrite <- (firstn_skipn bf data). apply CF; [lia|].
+      eapply IH. exact EC.
+Qed.
+
+Lemma firstn_cons_nonempty (bf : nat) (x : N) d : N.of_nat bf = BUF_LEN -> firstn bf (x :: d) <> [].
+Proof.
+  intros HBF C. apply (f_equal (@length N)) in C. rewrite firstn_length in C. cbn [length] in C.
+  unfold BUF_LEN in HBF. lia.
+Qed.
+
+(* the stream the encoder writes: prefix, body, 0 tag, and the little-endian check hash of the data *)
+Lemma encode_shape data s :
+  encode data = Some s ->
+  exists body h, s = PREFIX ++ body ++ 0 :: le_bytes 8 h /\ chain data CHECK_HASH_SEED h /\ h < M64.
+Proof.
+  unfold encode. destruct (enc_chunks (S (length data)) data CHECK_HASH_SEED) as [[body h]|] eqn:E; [|discriminate].
+  intros H. exists body, h. split; [congruence|]. split; [eapply enc_chunks_chain; exact E|].
+  clear H. revert E. generalize (S (length data)). intros fuel.
+  assert (G : forall fuel d h0 b h1, h0 < M64 -> enc_chunks fuel d h0 = Some (b, h1) -> h1 < M64).
+  { clear. induction fuel as [|f IH]; intros d h0 b h1 H0 E.
+    - destruct d; [|discriminate]. rewrite enc_chunks_nil in E. congruence.
+    - destruct d as [|x d]; [rewrite enc_chunks_nil in E; congruence|].
+      rewrite enc_chunks_cons in E.
+      destruct (encode_buf _ h0) as [[out h2]|] eqn:EB; [|discriminate].
+      destruct (enc_chunks f _ h2) as [[outs h3]|] eqn:EC; [|discriminate].
+      assert (h3 = h1) by congruence. subst h3.
+      eapply IH; [|exact EC].
+      assert (Hne : firstn buf_fuel (x :: d) <> []) by (apply firstn_cons_nonempty, buf_fuel_N).
+      rewrite (encode_buf_hash _ _ _ _ Hne EB). apply mir_hash_strict_lt. }
+  intros E. eapply G; [|exact E]. unfold CHECK_HASH_SEED, M64. lia.
+Qed.
